@@ -111,6 +111,11 @@ func ParsePatterns(docs ...*ast.CommentGroup) (patterns []string, hasDirective b
 			if c == nil {
 				continue
 			}
+			// A directive starts immediately after the slashes ("// go:embed" is an
+			// ordinary comment for the go tool).
+			if !strings.HasPrefix(c.Text, "//go:embed") {
+				continue
+			}
 			line := strings.TrimSpace(strings.TrimPrefix(c.Text, "//"))
 			args, ok := ParseDirective(line)
 			if !ok {
